@@ -5,7 +5,8 @@ K(t, s) == [t |-> t, s |-> s]
 MapKeys == <<K("int", "1"), K("int", "2"), K("str", "\"1\""), K("str", "\"a\""), K("float", "1.0"), K("nil", "nil"), K("bool", "true"),
              K("bool", "false"), K("arr", "[1]"), K("arr", "[]"), K("obj", "{a: 1}"), K("str", "\"b\""),
              K("float", "1.0000001"), K("float", "1.0000002"),
-             K("arr", "B1"), K("range", "(1:2)"), K("range", "R1")>>     \* distinct keys that print alike
+             K("arr", "B1"), K("range", "(1:2)"), K("range", "R1"),
+             K("int", "5"), K("intdesc", "I5")>>      \* I5 is 5.bear: not a scalar key (found by ==, listed after the scalars), and not the key 5     \* distinct keys that print alike
 ObjNames == <<"a", "b", "_p", "a!", "_p!">>
 (* operands available for ** (values 100.. so that their origin is visible) *)
 M1 == <<[k |-> K("int", "1"), v |-> 100], [k |-> K("str", "\"a\""), v |-> 101], [k |-> K("arr", "[1]"), v |-> 102], [k |-> K("str", "\"c\""), v |-> 103]>>
